@@ -105,6 +105,20 @@ pub struct Exec {
     seen: HashSet<String>,
     ingest_counter: u64,
     mode: String,
+    /// manifest edits already reported, per fragment file name
+    mani_seen: std::collections::HashMap<String, usize>,
+}
+
+/// eight columns of a digest as [hi16, lo16] pairs (TLC integers are 32-bit)
+fn cols_of_digest(d: &[u8; 32]) -> Vec<[u32; 2]> {
+    (0..8).map(|i| {
+        let c = u32::from_le_bytes(d[4 * i..4 * i + 4].try_into().unwrap());
+        [c >> 16, c & 0xffff]
+    }).collect()
+}
+
+fn cols_of_hex(h: &str) -> Option<Vec<[u32; 2]>> {
+    setsum::Setsum::from_hexdigest(h).map(|s| cols_of_digest(&s.digest()))
 }
 
 fn err_string(e: &lsmtk::SError) -> String {
@@ -162,6 +176,75 @@ impl Exec {
         Ok(out)
     }
 
+    /// the setsum columns of every entry of a file, each computed by sst::Setsum on that entry alone
+    fn entry_hashes(&self, id: &str) -> Result<Vec<Vec<[u32; 2]>>, String> {
+        let path = self.root.join("sst").join(format!("{id}.sst"));
+        let sst = Sst::<sst::file_manager::FileHandle>::new(SstOptions::default(), &path).map_err(|e| err_string(&e))?;
+        let mut c = sst.cursor();
+        c.seek_to_first().map_err(|e| err_string(&e))?;
+        let mut out = vec![];
+        loop {
+            c.next().map_err(|e| err_string(&e))?;
+            match c.key_value() {
+                None => break,
+                Some(kvr) => {
+                    let mut s = sst::Setsum::default();
+                    s.insert(kvr);
+                    out.push(cols_of_digest(&s.digest()));
+                }
+            }
+        }
+        Ok(out)
+    }
+
+    /// manifest transactions not reported before, in fragment order (MANIFEST.N ascending, then MANIFEST)
+    fn manifest_txns(&mut self) -> Result<Vec<Value>, String> {
+        let dir = self.root.join("mani");
+        let mut frags: Vec<(u64, String)> = vec![];
+        for e in std::fs::read_dir(&dir).map_err(|e| e.to_string())?.flatten() {
+            let name = e.file_name().to_string_lossy().to_string();
+            if name == "MANIFEST" {
+                frags.push((u64::MAX, name));
+            } else if let Some(n) = name.strip_prefix("MANIFEST.") {
+                if let Ok(n) = n.parse::<u64>() {
+                    frags.push((n, name));
+                }
+            }
+        }
+        frags.sort();
+        let mut out = vec![];
+        // A roll-over renames nothing: the old MANIFEST lives on as MANIFEST.N (same file) and a new
+        // MANIFEST starts with the roll-up.  So the first backup not seen before continues where the
+        // live file had been read up to; later new backups and the live file are read from the start.
+        let mut live_seen = self.mani_seen.get("LIVE").copied().unwrap_or(0);
+        for (n, name) in frags {
+            let is_live = n == u64::MAX;
+            if !is_live && self.mani_seen.contains_key(&name) {
+                continue;
+            }
+            let it = mani::ManifestIterator::open(dir.join(&name)).map_err(|e| format!("{e:?}"))?;
+            let mut idx = 0usize;
+            for edit in it {
+                let edit = edit.map_err(|e| format!("{e:?}"))?;
+                if idx >= live_seen {
+                    let ids = |it: &mut dyn Iterator<Item = &String>| -> Vec<String> { it.map(|s| s[..16.min(s.len())].to_string()).collect() };
+                    let info = |c: char| edit.get_info(c).and_then(|h| cols_of_hex(h));
+                    out.push(json!({"frag": name, "first": idx == 0, "added": ids(&mut edit.added()), "rmed": ids(&mut edit.rmed()),
+                                    "I": info('I'), "O": info('O'), "D": info('D')}));
+                }
+                idx += 1;
+            }
+            if is_live {
+                self.mani_seen.insert("LIVE".into(), idx);
+            } else {
+                self.mani_seen.insert(name, idx);
+                live_seen = 0;
+                self.mani_seen.insert("LIVE".into(), 0);
+            }
+        }
+        Ok(out)
+    }
+
     /// levels + entries of files not reported before
     fn project(&mut self, ev: &mut serde_json::Map<String, Value>) -> Result<(), String> {
         let levels = match self.tree() {
@@ -178,7 +261,8 @@ impl Exec {
                 let id = full[..16].to_string();
                 if !self.seen.contains(&id) {
                     let entries = self.read_file(&full)?;
-                    newfiles.push(json!({"id": id, "entries": entries}));
+                    let ehash = self.entry_hashes(&full)?;
+                    newfiles.push(json!({"id": id, "entries": entries, "cols": cols_of_digest(&md.setsum), "ehash": ehash}));
                     self.seen.insert(id.clone());
                 }
                 meta.push(json!({"id": id, "fk": self.keys.index(&md.first_key), "lk": self.keys.index(&md.last_key),
@@ -190,6 +274,10 @@ impl Exec {
         ev.insert("levels".into(), json!(lv));
         ev.insert("newfiles".into(), json!(newfiles));
         ev.insert("meta".into(), json!(meta));
+        if std::env::var("VH_SETSUM").is_ok() {
+            let txns = self.manifest_txns()?;
+            ev.insert("txns".into(), json!(txns));
+        }
         Ok(())
     }
 
@@ -422,6 +510,7 @@ pub fn run_history(doc: &Value, root: &Path, out: &mut dyn Write, run_id: u64) -
         seen: HashSet::new(),
         ingest_counter: 0,
         mode: doc["mode"].as_str().unwrap_or("kvs").to_string(),
+        mani_seen: Default::default(),
     };
     let mut n = 0u64;
     let mut emit = |ev: serde_json::Map<String, Value>, out: &mut dyn Write| {
@@ -528,6 +617,7 @@ pub fn recover(args: &[String]) -> ! {
         seen: HashSet::new(),
         ingest_counter: 0,
         mode: doc["mode"].as_str().unwrap_or("kvs").to_string(),
+        mani_seen: Default::default(),
     };
     let mut ev = serde_json::Map::new();
     let r = catch_unwind(AssertUnwindSafe(|| ex.open().and_then(|_| ex.observe(&mut ev))));
@@ -593,6 +683,104 @@ pub fn main(args: &[String]) -> ! {
         if std::env::var("VH_KEEP_DB").is_err() {
             let _ = std::fs::remove_dir_all(&root);
         }
+    }
+    out.flush().unwrap();
+    rep.finish()
+}
+
+// ---------------------------------------------------------------------------------------------
+// C04, rejection half: alter one recorded digest of one transaction; the offline verifiers must reject
+
+fn copy_tree(src: &Path, dst: &Path) {
+    let _ = std::fs::remove_dir_all(dst);
+    std::fs::create_dir_all(dst).unwrap();
+    for e in std::fs::read_dir(src).unwrap().flatten() {
+        let p = e.path();
+        let d = dst.join(e.file_name());
+        if p.is_dir() {
+            copy_tree(&p, &d);
+        } else {
+            std::fs::copy(&p, &d).unwrap();
+        }
+    }
+}
+
+/// vh store-tamper <doc.json> <scratch> <out.ndjson>
+pub fn tamper(args: &[String]) -> ! {
+    let text = std::fs::read_to_string(&args[0]).unwrap();
+    let docs: Vec<Value> = serde_json::from_str(&text).unwrap();
+    let scratch = PathBuf::from(&args[1]);
+    std::fs::create_dir_all(&scratch).ok();
+    let mut out = std::io::BufWriter::new(std::fs::File::create(&args[2]).unwrap());
+    std::panic::set_hook(Box::new(|_| {}));
+    let mut rep = Report::default();
+    for (di, doc) in docs.iter().enumerate() {
+        inflight(doc);
+        let root = scratch.join("db");
+        let mut sink = std::io::sink();
+        let (_n, aborted) = run_history(doc, &root, &mut sink, di as u64);
+        if aborted.is_some() {
+            writeln!(out, "{}", json!({"ev": "tamper-skip", "run": di, "why": aborted})).unwrap();
+            continue;
+        }
+        // fragments the verifier will process: all but the newest backup and the live MANIFEST
+        let mdir = root.join("mani");
+        let mut nums: Vec<u64> = std::fs::read_dir(&mdir).unwrap().flatten()
+            .filter_map(|e| e.file_name().to_string_lossy().strip_prefix("MANIFEST.").and_then(|n| n.parse().ok())).collect();
+        nums.sort();
+        nums.pop();
+        // baseline: the untampered copy must be accepted (or ask to back off)
+        let verdict = |dir: &Path| -> String {
+            let o = options(dir, &doc["opts"]);
+            match catch_unwind(AssertUnwindSafe(|| lsmtk::LsmVerifier::open(o).and_then(|mut v| v.verify()))) {
+                Ok(Ok(())) => "ok".into(),
+                Ok(Err(e)) => if lsmtk::error_code(&e) == Some(lsmtk::CODE_BACKOFF) { "backoff".into() } else { "rejected".into() },
+                Err(_) => "panic".into(),
+            }
+        };
+        let work = scratch.join("tampered");
+        copy_tree(&root, &work);
+        writeln!(out, "{}", json!({"ev": "tamper-baseline", "run": di, "fragments": nums.len(), "lsm_verifier": verdict(&work)})).unwrap();
+        let mut count = 0u64;
+        for n in &nums {
+            let name = format!("MANIFEST.{n}");
+            let bytes = std::fs::read(mdir.join(&name)).unwrap();
+            let text = String::from_utf8_lossy(&bytes).to_string();
+            let lines: Vec<&str> = text.split('\n').collect();
+            let mut edit_idx = 0usize;
+            for (li, line) in lines.iter().enumerate() {
+                if *line == "--------" {
+                    edit_idx += 1;
+                    continue;
+                }
+                if line.len() != 9 + 64 || !line[9..].chars().all(|c| c.is_ascii_hexdigit()) {
+                    continue;
+                }
+                // flip one hex digit of the digest, keep the line's CRC valid
+                let pos = 9 + (li * 7 + count as usize) % 64;
+                let mut chars: Vec<char> = line.chars().collect();
+                chars[pos] = if chars[pos] == '0' { '1' } else { '0' };
+                let body: String = chars[8..].iter().collect();
+                let newline = format!("{:08x}{}", crc32c::crc32c(body.as_bytes()), body);
+                let mut newlines: Vec<String> = lines.iter().map(|s| s.to_string()).collect();
+                newlines[li] = newline;
+                copy_tree(&root, &work);
+                std::fs::write(work.join("mani").join(&name), newlines.join("\n")).unwrap();
+                let mv = match catch_unwind(AssertUnwindSafe(|| lsmtk::ManifestVerifier::open().and_then(|v| v.verify(&work.join("mani").join(&name))))) {
+                    Ok(Ok(_)) => "ok",
+                    Ok(Err(_)) => "rejected",
+                    Err(_) => "panic",
+                };
+                let lv = verdict(&work);
+                count += 1;
+                rep.steps += 1;
+                writeln!(out, "{}", json!({"ev": "tamper", "run": di, "frag": name, "line": li, "field": line[8..9], "first_edit": edit_idx == 0,
+                                           "manifest_verifier": mv, "lsm_verifier": lv})).unwrap();
+            }
+        }
+        rep.evaluations += 1;
+        let _ = std::fs::remove_dir_all(&root);
+        let _ = std::fs::remove_dir_all(&work);
     }
     out.flush().unwrap();
     rep.finish()
